@@ -518,6 +518,32 @@ def _judge(spec, results, defs, rep, seed, n, counts, searching=False):
                 rep.broken_obligation(f"unexpected verdict code {v} on {text}")
 
 
+def _run_bins(spec, sd, nn, wd, rep=None):
+    """Run the harness binary of the spec and every entry of spec['extra_bins']
+    ({bin, extra_args, n_factor}); cases of all of them are merged (line indices of
+    the k-th extra binary are offset by k*1000000 so that replays stay unambiguous)."""
+    defs, streams, names = {}, {}, None
+    todo = [(spec["bin"], spec.get("extra_args", []), 1.0)]
+    for eb in spec.get("extra_bins", []):
+        todo.append((eb["bin"], eb.get("extra_args", []), eb.get("n_factor", 1.0)))
+    for k, (b, xa, fac) in enumerate(todo):
+        cf = os.path.join(wd, f"{b}.cases")
+        if os.path.exists(cf):
+            os.remove(cf)
+        try:
+            rc, out, err = harness_run(b, [sd, max(1, int(nn * fac)), wd] + xa, timeout=spec.get("harness_timeout", 1200))
+        except subprocess.TimeoutExpired:
+            rc, out, err = 124, "", "timeout"
+        if rc != 0 and rep is not None:
+            rep.broken_obligation(f"harness {b} exited {rc}: {err[-400:]}")
+        d, st, nm = _parse_case_file(cf)
+        defs.update(d)
+        names = names or nm
+        for kd, v in st.items():
+            streams.setdefault(kd, []).extend((g, m, idx + k * 1000000) for g, m, idx in v)
+    return defs, streams, names
+
+
 def run_standard(spec, tier, seed, replay=None):
     """facts -> proof obligations -> harness -> model evaluation -> verdict.
     spec keys: pid, facts[], bin, requires, def_type, streams[{kind,type,eval,per_shard}],
@@ -544,7 +570,7 @@ def run_standard(spec, tier, seed, replay=None):
         for f in pr["failures"]:
             rep.broken_obligation("coq: " + f)
     counts, samples, distinct, nontrivial, total = {}, [], set(), 0, 0
-    ok, log = harness_build([spec["bin"]])
+    ok, log = harness_build([spec["bin"]] + [eb["bin"] for eb in spec.get("extra_bins", [])])
     wd = os.path.join(WORK, pid)
     os.makedirs(wd, exist_ok=True)
     if not ok:
@@ -555,16 +581,7 @@ def run_standard(spec, tier, seed, replay=None):
             rp = json.load(open(replay))
             runs = [(rp.get("seed", seed), rp.get("n", n))]
         for k, (sd, nn) in enumerate(runs):
-            cf = os.path.join(wd, f"{spec['bin']}.cases")
-            if os.path.exists(cf):
-                os.remove(cf)
-            try:
-                rc, out, err = harness_run(spec["bin"], [sd, nn, wd] + spec.get("extra_args", []), timeout=spec.get("harness_timeout", 1200))
-            except subprocess.TimeoutExpired:
-                rc, out, err = 124, "", "timeout"
-            if rc != 0:
-                rep.broken_obligation(f"harness {spec['bin']} exited {rc}: {err[-400:]}")
-            defs, streams, names = _parse_case_file(cf)
+            defs, streams, names = _run_bins(spec, sd, nn, wd, rep)
             if replay:
                 want = rp.get("line_index")
                 streams = {kd: [x for x in v if x[2] == want] for kd, v in streams.items()}
@@ -588,10 +605,8 @@ def run_standard(spec, tier, seed, replay=None):
         # search: something no longer checks and no concrete failing input yet
         if rep.broken and not rep.violations and not replay and ok:
             sd, nn = seed + 7919, n * spec.get("search_factor", 8)
-            cf = os.path.join(wd, f"{spec['bin']}.cases")
             try:
-                rc, out, err = harness_run(spec["bin"], [sd, nn, wd] + spec.get("extra_args", []), timeout=spec.get("harness_timeout", 1200))
-                defs, streams, names = _parse_case_file(cf)
+                defs, streams, names = _run_bins(spec, sd, nn, wd)
                 results = _evaluate(spec, defs, streams, rep)
                 sc = {}
                 _judge(spec, results, defs, rep, sd, nn, sc, searching=True)
